@@ -71,6 +71,57 @@ def render(case, order, ren, extra, pn):
     return "\n".join(lines) + "\n"
 
 
+def render_gap(case, order, pn):
+    """the inner candidates two function levels below the outer ones, with a scope in between that declares no overload of the name"""
+    cands = [case["cands"][i] for i in order]
+    outer = [c for c in cands if c["lvl"] == 0]
+    inner = [c for c in cands if c["lvl"] == 1]
+    lines = [cand_decl("ov", c, {}, pn) for c in outer]
+    call = "ov(%s)" % ", ".join(arg_src(a) for a in case["args"])
+    body = "".join("        " + cand_decl("ov", c, {}, pn) + "\n" for c in inner)
+    lines.append("fn site()->int {\n    let unrelated = 5;\n    fn mid()->int {\n%s        %s\n    }\n    mid()\n}" % (body, call))
+    lines.append("let r = site();")
+    return "\n".join(lines) + "\n"
+
+
+def rigid_tname(t, ren):
+    return tname(t, ren).replace("int", "G")
+
+
+RIGID_ARG = {"int": "g", "str": '"s"', "seq:int": "[g]", "seq:str": '["s"]', "opt:int": "some(g)", "fn": "((q: G) -> {q})"}
+
+
+def render_rigid(case, order, pn):
+    """the whole case inside `fn outer<G>(g: G)` with the ground type int renamed to the opaque parameter G:
+    an opaque type parameter resolves like any other ground type"""
+    def decl(c):
+        gens = sorted(c["gen"])
+        ps = []
+        for i, p in enumerate(c["ps"]):
+            s = "%s%d: %s" % (pn, i, rigid_tname(p["ty"], {}))
+            if p["opt"]:
+                s += " ?= " + ('"d"' if p["ty"]["k"] == "str" else "g" if p["ty"]["k"] == "int" else "0")
+            ps.append(s)
+        return "fn ov%s(%s)->int { %d }" % ("<%s>" % ", ".join(gens) if gens else "", ", ".join(ps), c["tag"])
+
+    def asrc(t):
+        k = t["k"]
+        if k in ("int", "str"):
+            return RIGID_ARG[k]
+        if k in ("seq", "opt"):
+            return RIGID_ARG[k + ":" + t["a"]["k"]]
+        return RIGID_ARG["fn"]
+    cands = [case["cands"][i] for i in order]
+    for c in cands:
+        for p in c["ps"]:
+            if p["opt"] and p["ty"]["k"] not in ("int", "str"):
+                return None
+    outer = "".join("    " + decl(c) + "\n" for c in cands if c["lvl"] == 0)
+    inner = "".join("        " + decl(c) + "\n" for c in cands if c["lvl"] == 1)
+    call = "ov(%s)" % ", ".join(asrc(a) for a in case["args"])
+    return "fn outer<G>(g: G)->int {\n%s    fn site()->int {\n%s        %s\n    }\n    site()\n}\nlet r = outer(7);\n" % (outer, inner, call)
+
+
 def template_programs():
     """collisions with standard-library names; dynamic lookup through derived functions"""
     T = []
@@ -115,6 +166,14 @@ def run(chk, tier, seed):
             jid = "c%d_%d" % (ci, vi)
             jobs.append({"id": jid, "src": render(c, o, ren, extra, pn), "observe": ["r"]})
             meta[jid] = (ci, vi)
+        if tier == "thorough" or (ci + seed) % 2 == 0:
+            if any(x["lvl"] == 1 for x in c["cands"]) and any(x["lvl"] == 0 for x in c["cands"]):
+                jobs.append({"id": "c%d_gap" % ci, "src": render_gap(c, orders[-1], "a"), "observe": ["r"]})
+                meta["c%d_gap" % ci] = (ci, "gap")
+            rs = render_rigid(c, orders[0], "a")
+            if rs is not None:
+                jobs.append({"id": "c%d_rigid" % ci, "src": rs, "observe": ["r"]})
+                meta["c%d_rigid" % ci] = (ci, "rigid")
     res = vf.run_jobs(jobs, "c05")
     chk.count(len(jobs))
     for j in jobs:
@@ -133,7 +192,7 @@ def run(chk, tier, seed):
             good = oc == "compile_err" and o["compile"].get("class") == want["r"]
             wtxt = want["r"]
         if not good:
-            chk.violation("variant %d: expected %s, observed %s\n%s" % (vi, wtxt, got, j["src"]),
+            chk.violation("variant %s: expected %s, observed %s\n%s" % (vi, wtxt, got, j["src"]),
                           {"kind": "overload", "source": j["src"], "expected": want, "observed": got, "variant": vi,
                            "cands": c["cands"], "args": c["args"]},
                           finding_key="overload:%s|%s" % (sorted(x["tag"] for x in c["cands"]), json.dumps(c["args"])))
@@ -209,7 +268,8 @@ def run(chk, tier, seed):
     chk.sample({"source": render(c, list(range(len(c["cands"]))), {}, False, "a"), "expected": c["res"]})
     chk.cov["exhaustive"] = tier == "thorough" and len(cases) < 30000
     chk.cov["rule"] = ("all subsets (size <= %s) of a 16-signature pool x 13 argument tuples, each rendered in 3 variants "
-                       "(declaration order, renamed generic parameters and variables, an extra non-matching overload), "
+                       "(declaration order, renamed generic parameters and variables, an extra non-matching overload) plus a gap variant (the "
+                       "inner candidates two scopes below the outer ones) and a rigid variant (the case inside fn outer<G> with int renamed to G), "
                        "candidates optionally split between the call site's scope and the enclosing one; plus stdlib-name "
                        "collisions and dynamic-lookup templates. non-trivial = distinct (candidate set, levels, args)" %
                        ("2" if tier == "quick" else "3"))
